@@ -6,6 +6,14 @@ V = os.path.dirname(os.path.dirname(os.path.abspath(__file__)))
 TECH = 'contract-based deductive verification: VCs generated from the real function ASTs by pyvc (sidecar contracts), discharged by z3 raced with cvc5'
 
 CLAIMED = {
+ 'C02': dict(
+   text="Deductive, over the heap model of the object tree with ghost registry views: Documentable.fullName = the dotted path from the root (recursive spec fn_spec, acyclic parent chain as precondition), System.addObject (afterwards allobjects[fullName(obj)] is obj, obj is in its parent's contents under its own name or in rootobjects, other registry keys untouched except through handleDuplicate), Function.setup, _handle_reparenting_pre/_post (recursive, frame: only keys with the moved object's prefix change; every node of the subtree is deregistered / registered under its current qualified name) and Documentable.reparent (after the fix: registered under the new name, in the new parent's contents under new_name, gone from the old parent's contents, parentMod updated, an occupied target name handled as duplicate first).",
+   note="Assumed: System.handleDuplicate's contract (renames the displaced object and re-registers both), dict views. The registry/containment/parent/fullName/module/URL-uniqueness invariants over a whole built system (all ten clauses of the property, after real ASTBuilder runs including re-exports, duplicates, nested duplicates) are decided by the bounded native harness. Known findings KF-C02-summary-page-clash, KF-C02-nested-duplicate-key.",
+   ref='6 C02'),
+ 'C07': dict(
+   text="Deductive: ModuleVistor._handleReExport moves the object exactly when the documented condition holds (as_name is exported by the current module's __all__, the origin resolves it to an object defined in a module, and the origin's own __all__ does not list it), under the name it is imported as, returns True exactly then, reports and returns False when it cannot be resolved, and changes nothing otherwise; _getCurrentModuleExports yields the module's __all__ (nothing inside classes/functions); the effect of the move itself is Documentable.reparent's contract (C02): one object, registered once under the new qualified name, alias left at the old location.",
+   note="Assumed: resolveName/expandName (name resolution through alias chains is outside the contracts; after the fix resolveName follows the alias of a moved object), System.msg/report only count. 'Both the new name and an import from the defining module lead to that one object', documented-once on the written pages, processing order independence (consumer first / origin first) are decided by the bounded native harness (plain, renamed, star re-exports x analysis order x origin __all__).",
+   ref='6 C07'),
  'C05': dict(
    text="Deductive: the whole of pydoctor/mro.py is under contract and proved for all inputs: Dependency.head/tail, DependencyList.__init__ (fresh pairwise-distinct deques), __contains__, heads, tails, exhausted, remove (pointwise over the abstract view), _merge (result = the C3 merge of its argument lists, ValueError exactly when C3 has no solution; both loops with invariants; remaining-work invariant pre(result, c3_merge(view)) = c3_merge(lists)) and mro (result = the C3 linearisation over a pure base function, recursion by its own contract).",
    note="Assumed: elements are truthy and getbases is pure; the C3 definition (axioms c3_def, drop_def, view_def) is the specification, validated against CPython's type().__mro__ on every hierarchy of <= 5 classes each run (bounded, an assumption check). Not yet under contract: model.Class._init_mro/compute_mro (cycle detection, reporting), Class.find, docsources, get_docstring, templatewriter.util/pages lookups - these are exercised only by the bounded native harness.",
